@@ -106,6 +106,9 @@ enum Ty {
 struct Gen<'r> {
     rng: &'r mut Rng,
     has_t: bool,
+    /// the expression being generated starts a binding's right-hand side or the program body, so
+    /// it may span several lines (gluon does not parse several alternatives on one line)
+    line_ok: bool,
     fresh: usize,
     feat: &'r mut Hist,
 }
@@ -161,6 +164,8 @@ impl<'r> Gen<'r> {
     }
     /// an expression of type `ty`, printed on one line
     fn expr(&mut self, scope: &[(String, Ty)], ty: &Ty, depth: u32) -> String {
+        let top = self.line_ok;
+        self.line_ok = false;
         // variables first
         let vars = self.vars_of(scope, ty);
         if !vars.is_empty() && (depth == 0 || self.rng.chance(2, 5)) {
@@ -213,7 +218,7 @@ impl<'r> Gen<'r> {
                         return format!("{}.{}", n, f.0);
                     }
                 }
-                4 if self.has_t => {
+                4 if self.has_t && top => {
                     self.feat.add("match-variant");
                     let scrut = self.expr(scope, &Ty::T, depth - 1);
                     let n1 = self.name();
@@ -227,7 +232,7 @@ impl<'r> Gen<'r> {
                     s3.push((n2.clone(), Ty::Int));
                     s3.push((n3.clone(), Ty::Int));
                     let e3 = self.expr(&s3, ty, depth - 1);
-                    return format!("(match {} with | A {} -> {} | B -> {} | C {} {} -> {})", scrut, n1, e1, e2, n2, n3, e3);
+                    return format!("(match {} with\n        | A {} -> {}\n        | B -> {}\n        | C {} {} -> {})", scrut, n1, e1, e2, n2, n3, e3);
                 }
                 5 => {
                     self.feat.add("match-tuple");
@@ -252,7 +257,7 @@ impl<'r> Gen<'r> {
                     let body = self.expr(&sc, ty, depth - 1);
                     return format!("(match {{ x = {}, y = {} }} with | {{ x, y = {} }} -> {})", a, b, n1, body);
                 }
-                7 => {
+                7 if top => {
                     self.feat.add("match-literal");
                     let a = self.expr(scope, &Ty::Int, depth - 1);
                     let n1 = self.name();
@@ -260,7 +265,7 @@ impl<'r> Gen<'r> {
                     let mut sc = scope.to_vec();
                     sc.push((n1.clone(), Ty::Int));
                     let e2 = self.expr(&sc, ty, depth - 1);
-                    return format!("(match {} with | 0 -> {} | {} -> {})", a, e1, n1, e2);
+                    return format!("(match {} with\n        | 0 -> {}\n        | {} -> {})", a, e1, n1, e2);
                 }
                 8 => {
                     // apply a function variable returning ty
@@ -293,6 +298,11 @@ impl<'r> Gen<'r> {
                     sc.push((n2.clone(), Ty::Int));
                     let body = self.expr(&sc, ty, depth - 1);
                     return format!("(match ({}, 1) with | {} @ ({}, _) -> {})", a, n1, n2, body);
+                }
+                10 => {
+                    self.feat.add("match-unit");
+                    let body = self.expr(scope, ty, depth - 1);
+                    return format!("(match () with | () -> {})", body);
                 }
                 _ => {}
             }
@@ -384,6 +394,13 @@ impl<'r> Gen<'r> {
             }
         }
     }
+    /// an expression that starts a line-level position (right-hand side of a top-level binding)
+    fn line_expr(&mut self, scope: &[(String, Ty)], ty: &Ty, depth: u32) -> String {
+        self.line_ok = true;
+        let e = self.expr(scope, ty, depth);
+        self.line_ok = false;
+        e
+    }
     fn atom(&self, e: String) -> String {
         let simple = e.chars().all(|c| c.is_alphanumeric() || c == '_' || c == '.');
         if simple || (e.starts_with('(') && balanced_outer(&e, '(', ')')) || (e.starts_with('{') && e.ends_with('}')) || (e.starts_with('[') && e.ends_with(']')) || e.starts_with('"') {
@@ -458,16 +475,16 @@ impl<'r> Gen<'r> {
                         String::new()
                     };
                     if self.rng.chance(1, 2) {
-                        let body = self.expr(&sc, &rt, d);
+                        let body = self.line_expr(&sc, &rt, d);
                         out.push_str(&format!("let {} {}{} = {}\n", f, args.join(" "), ann, body));
                     } else {
                         // multi-line body with a nested layout block
                         self.feat.add("top:nested-block");
                         let n = self.name();
                         let t1 = self.simple_ty();
-                        let e1 = self.expr(&sc, &t1, d);
+                        let e1 = self.line_expr(&sc, &t1, d);
                         sc.push((n.clone(), t1));
-                        let body = self.expr(&sc, &rt, d);
+                        let body = self.line_expr(&sc, &rt, d);
                         out.push_str(&format!("let {} {}{} =\n    let {} = {}\n    {}\n", f, args.join(" "), ann, n, e1, body));
                     }
                     scope.push((f, fty));
@@ -527,7 +544,7 @@ impl<'r> Gen<'r> {
                     self.feat.add("top:let-value");
                     let t = self.any_ty(2);
                     let n = self.name();
-                    let e = self.expr(&scope, &t, d);
+                    let e = self.line_expr(&scope, &t, d);
                     let ann = if self.rng.chance(1, 4) {
                         self.feat.add("top:annotation");
                         format!(" : {}", self.ty_src(&t))
@@ -544,7 +561,7 @@ impl<'r> Gen<'r> {
         }
         let t = self.any_ty(1);
         let d = 1 + self.rng.below(3) as u32;
-        let body = self.expr(&scope, &t, d);
+        let body = self.line_expr(&scope, &t, d);
         out.push_str(&body);
         match self.rng.below(4) {
             0 => out.push('\n'),
@@ -1023,7 +1040,16 @@ impl<'a> Exporter<'a> {
                 n.children.push(self.expr(d.body, false));
                 n
             }
-            Expr::MacroExpansion { .. } | Expr::Annotated(..) => {
+            // inserted by the checker around an expression whose expected type was skolemised
+            // (check/src/typecheck.rs:2624); same span as the expression it wraps.  FindVisitor
+            // has `unimplemented!()` here (:717); the obvious repair descends into the wrapped
+            // expression, which is what is modelled.
+            Expr::Annotated(inner, _) => {
+                let mut n = TNode::new(e.span, k(P_SEL), 0);
+                n.children.push(self.expr(inner, false));
+                n
+            }
+            Expr::MacroExpansion { .. } => {
                 self.opaque_nodes += 1;
                 TNode::new(e.span, k(P_OPAQUE), 0)
             }
@@ -1054,6 +1080,14 @@ impl<'a, 'ast> Visitor<'a, 'ast> for Idents {
             Expr::Infix { lhs, rhs, .. } => {
                 self.visit_expr(lhs);
                 self.visit_expr(rhs);
+            }
+            // `flat_map_id` is synthetic (it has the span of the whole `do`)
+            Expr::Do(d) => {
+                if let Some(id) = &d.id {
+                    self.visit_pattern(id);
+                }
+                self.visit_expr(d.bound);
+                self.visit_expr(d.body);
             }
             _ => ast::walk_expr(self, e),
         }
@@ -1089,6 +1123,37 @@ fn repo_relative(file: &str) -> String {
 }
 
 // ------------------------------------------------------------------------------------------
+// progress file: what the (child) process is doing, so that the parent can attribute an abort
+// (stack overflow, non-unwinding panic) or a hang to a program, a query and an offset
+// ------------------------------------------------------------------------------------------
+struct Progress {
+    file: std::fs::File,
+    fine: bool,
+}
+static PROGRESS: std::sync::Mutex<Option<Progress>> = std::sync::Mutex::new(None);
+
+fn progress(phase: &str, function: &str, offset: u32, variant: &str, text: &str) {
+    use std::io::{Seek, SeekFrom};
+    if let Ok(mut g) = PROGRESS.lock() {
+        if let Some(p) = g.as_mut() {
+            let line = serde_json::json!({"phase": phase, "function": function, "offset": offset, "variant": variant,
+                "hash": format!("{:016x}", fnv(text.as_bytes())), "program": text})
+            .to_string();
+            let _ = p.file.seek(SeekFrom::Start(0));
+            let _ = p.file.set_len(0);
+            let _ = p.file.write_all(line.as_bytes());
+            let _ = p.file.flush();
+        }
+    }
+}
+fn fine_progress(function: &str, offset: u32, variant: &str, text: &str) {
+    let fine = PROGRESS.lock().map(|g| g.as_ref().map_or(false, |p| p.fine)).unwrap_or(false);
+    if fine {
+        progress("query", function, offset, variant, text);
+    }
+}
+
+// ------------------------------------------------------------------------------------------
 // one program variant: front end, export, every offset x every query
 // ------------------------------------------------------------------------------------------
 #[derive(Default)]
@@ -1118,11 +1183,13 @@ struct Out {
     impl_out: std::io::BufWriter<std::fs::File>,
     cases: std::io::BufWriter<std::fs::File>,
     direct: std::io::BufWriter<std::fs::File>,
+    notes: std::io::BufWriter<std::fs::File>,
     panics: BTreeMap<(String, String), PanicRec>,
     hist: Hist,
     totals: Totals,
     distinct: HashSet<u64>,
     nontrivial: u64,
+    vid_prefix: String,
     next_vid: u64,
     direct_reported: u64,
 }
@@ -1155,6 +1222,7 @@ fn token_starts(text: &str) -> Vec<(u32, u32)> {
 }
 
 fn run_variant(out: &mut Out, symbols: &mut Symbols, env: &Env, text: &str, pid: u64, variant: &str, only_offset: Option<u32>, verbose: bool) {
+    progress("front-end", "-", 0, variant, text);
     out.totals.variants += 1;
     let vkind = variant.split(':').next().unwrap_or(variant).to_string();
     out.hist.add(&format!("variant:{}", vkind));
@@ -1176,17 +1244,15 @@ fn run_variant(out: &mut Out, symbols: &mut Symbols, env: &Env, text: &str, pid:
             return;
         }
     };
-    out.hist.add(&format!(
-        "front-end:{}:{}",
-        vkind,
-        if checked.parse_ok && checked.check_ok { "well-typed" } else if checked.parse_ok { "type-error" } else { "parse-error" }
-    ));
+    let status = if checked.parse_ok && checked.check_ok { "well-typed" } else if checked.parse_ok { "type-error" } else { "parse-error" };
+    out.hist.add(&format!("front-end:{}:{}", vkind, status));
     let root = checked.expr.expr();
     let len = text.len() as u32;
     let source_span = Span::new(BytePos(1), BytePos(len + 1));
     let toks = token_starts(text);
     let tok_starts: Vec<u32> = toks.iter().map(|t| t.0).collect();
     let mut ex = Exporter { source_span, tok_starts: &tok_starts, eof: len + 1, names: Interner::default(), types: Interner::default(), opaque_nodes: 0 };
+    progress("export", "-", 0, variant, text);
     let tree = match guarded(|| ex.expr(root, false)) {
         Ok(t) => t,
         Err((loc, msg)) => {
@@ -1198,14 +1264,17 @@ fn run_variant(out: &mut Out, symbols: &mut Symbols, env: &Env, text: &str, pid:
         }
     };
     out.totals.opaque_nodes += ex.opaque_nodes as u64;
+    if ex.opaque_nodes > 0 && out.totals.opaque_nodes <= 20 {
+        writeln!(out.notes, "{}", serde_json::json!({"note": "unmodelled-node", "program": text, "variant": variant})).unwrap();
+    }
     out.totals.tree_nodes += tree.count() as u64;
-    let vid = out.next_vid;
+    let vid = format!("{}{}", out.vid_prefix, out.next_vid);
     out.next_vid += 1;
     let mut line = String::new();
     tree.write(&mut line);
     writeln!(out.model_in, "T {} {}", vid, line).unwrap();
     writeln!(out.impl_out, "T {}", vid).unwrap();
-    writeln!(out.cases, "T {} prog={} variant={} hash={:016x} src={}", vid, pid, variant, hash, esc(text)).unwrap();
+    writeln!(out.cases, "T {} prog={} variant={} status={} hash={:016x} src={}", vid, pid, variant, status, hash, esc(text)).unwrap();
     if tree.count() >= 4 && out.distinct.insert(hash) {
         out.nontrivial += 1;
     }
@@ -1233,6 +1302,7 @@ fn run_variant(out: &mut Out, symbols: &mut Symbols, env: &Env, text: &str, pid:
     };
 
     // position independent query
+    progress("query", "all_symbols", 0, variant, text);
     out.totals.queries += 1;
     out.hist.add("query:all_symbols");
     if let Err((loc, msg)) = guarded(|| completion::all_symbols(source_span, root).len()) {
@@ -1246,14 +1316,26 @@ fn run_variant(out: &mut Out, symbols: &mut Symbols, env: &Env, text: &str, pid:
             }
         }
         let pos = BytePos(offset + 1);
+        if offset == 0 {
+            progress("query", "?", 0, variant, text);
+        }
         out.totals.positions += 1;
         out.hist.add(&format!("positions:{}", vkind));
         let mut panicked = false;
         // 1. complete: the raw search result
+        fine_progress("complete", offset, variant, text);
         out.totals.queries += 1;
         let found = guarded(|| {
             completion::complete(source_span, root, pos).map(|f| {
                 let m = f.match_.as_ref().map(|m| (match_variant(m), m.span()));
+                let sel_kind: &'static str = match (f.match_.as_ref(), f.enclosing_matches.last()) {
+                    (Some(completion::Match::Expr(x)), _) => x.value.kind(),
+                    (Some(completion::Match::Pattern(_)), _) => "Pattern",
+                    (Some(completion::Match::Type(..)), _) => "Type",
+                    (_, Some(completion::Match::Expr(x))) => x.value.kind(),
+                    (_, Some(completion::Match::Pattern(_))) => "Pattern",
+                    _ => "?",
+                };
                 let e = f.enclosing_matches.last().map(|m| m.span());
                 // names admitted besides the lexical scope: fields of the record being projected /
                 // matched (completion after a dot)
@@ -1282,7 +1364,7 @@ fn run_variant(out: &mut Out, symbols: &mut Symbols, env: &Env, text: &str, pid:
                     }
                     _ => {}
                 }
-                (m, e, fx)
+                (m, e, fx, sel_kind)
             })
         });
         let found = match found {
@@ -1294,6 +1376,7 @@ fn run_variant(out: &mut Out, symbols: &mut Symbols, env: &Env, text: &str, pid:
             }
         };
         // 2. find
+        fine_progress("find", offset, variant, text);
         out.totals.queries += 1;
         let ty_text: Option<String> = match guarded(|| completion::find(env, source_span, root, pos)) {
             Ok(Ok(t)) => Some(match (t.as_ref().left(), t.as_ref().right()) {
@@ -1309,6 +1392,7 @@ fn run_variant(out: &mut Out, symbols: &mut Symbols, env: &Env, text: &str, pid:
             }
         };
         // 3. suggest
+        fine_progress("suggest", offset, variant, text);
         out.totals.queries += 1;
         let sugg: Vec<String> = match guarded(|| completion::suggest(env, source_span, root, pos)) {
             Ok(v) => {
@@ -1325,26 +1409,32 @@ fn run_variant(out: &mut Out, symbols: &mut Symbols, env: &Env, text: &str, pid:
         };
         // 4..8 the remaining queries only have to return
         out.totals.queries += 6;
+        fine_progress("symbol", offset, variant, text);
         if let Err((loc, msg)) = guarded(|| completion::symbol(source_span, root, pos).map(|s| s.declared_name().len())) {
             note_panic(out, "symbol", loc, msg, offset);
             panicked = true;
         }
+        fine_progress("find_all_symbols", offset, variant, text);
         if let Err((loc, msg)) = guarded(|| completion::find_all_symbols(source_span, root, pos).map(|s| s.1.len())) {
             note_panic(out, "find_all_symbols", loc, msg, offset);
             panicked = true;
         }
+        fine_progress("signature_help", offset, variant, text);
         if let Err((loc, msg)) = guarded(|| completion::signature_help(env, source_span, root, pos).map(|s| s.name.len())) {
             note_panic(out, "signature_help", loc, msg, offset);
             panicked = true;
         }
+        fine_progress("get_metadata", offset, variant, text);
         if let Err((loc, msg)) = guarded(|| completion::get_metadata(&checked.metadata, source_span, root, pos).is_some()) {
             note_panic(out, "get_metadata", loc, msg, offset);
             panicked = true;
         }
+        fine_progress("suggest_metadata", offset, variant, text);
         if let Err((loc, msg)) = guarded(|| completion::suggest_metadata(&checked.metadata, env, source_span, root, pos, "x").is_some()) {
             note_panic(out, "suggest_metadata", loc, msg, offset);
             panicked = true;
         }
+        fine_progress("completion", offset, variant, text);
         if let Err((loc, msg)) = guarded(|| completion::completion(completion::SpanAt, source_span, root, pos).is_ok()) {
             note_panic(out, "completion", loc, msg, offset);
             panicked = true;
@@ -1355,6 +1445,10 @@ fn run_variant(out: &mut Out, symbols: &mut Symbols, env: &Env, text: &str, pid:
             }
         }
         // direct oracle: inside an identifier the reported type is the checker's
+        let sel_kind = match &found {
+            Some(Ok(x)) => x.3,
+            _ => "?",
+        };
         for (s, e, name, ty) in &idents.out {
             if *s <= pos.0 && pos.0 < *e && *s >= 1 && *e <= len + 1 {
                 out.totals.ident_positions += 1;
@@ -1367,7 +1461,8 @@ fn run_variant(out: &mut Out, symbols: &mut Symbols, env: &Env, text: &str, pid:
                                 out.direct,
                                 "{}",
                                 serde_json::json!({"program": text, "variant": variant, "hash": format!("{:016x}", hash), "offset": offset,
-                                    "ident": name, "ident_span": [s, e], "checker_type": ty, "reported": t, "well_typed": checked.parse_ok && checked.check_ok})
+                                    "ident": name, "ident_span": [s, e], "checker_type": ty, "reported": t, "well_typed": checked.parse_ok && checked.check_ok,
+                                    "where": if pos.0 == *s { "at-start" } else { "inside" }, "selected": sel_kind, "status": status})
                             )
                             .unwrap();
                         }
@@ -1376,6 +1471,14 @@ fn run_variant(out: &mut Out, symbols: &mut Symbols, env: &Env, text: &str, pid:
                     None => {
                         if !panicked {
                             out.totals.ident_not_reported += 1;
+                            if out.totals.ident_not_reported <= 40 {
+                                writeln!(
+                                    out.notes,
+                                    "{}",
+                                    serde_json::json!({"note": "identifier-without-reported-type", "program": text, "variant": variant, "offset": offset, "ident": name, "ident_span": [s, e]})
+                                )
+                                .unwrap();
+                            }
                         }
                     }
                 }
@@ -1386,7 +1489,7 @@ fn run_variant(out: &mut Out, symbols: &mut Symbols, env: &Env, text: &str, pid:
             out.hist.add("positions:panicked");
             continue;
         }
-        let (m, e, fx) = match found {
+        let (m, e, fx, _) = match found {
             Some(Ok(x)) => x,
             Some(Err(())) => {
                 writeln!(out.model_in, "Q {} 0 sg= fx=", pos.0).unwrap();
@@ -1466,8 +1569,7 @@ fn corpus() -> Vec<String> {
     files.iter().filter_map(|p| std::fs::read_to_string(p).ok()).collect()
 }
 
-fn main() {
-    let args = Args::parse();
+fn install_panic_hook() {
     std::panic::set_hook(Box::new(|info| {
         let loc = info.location().map(|l| format!("{}:{}", repo_relative(l.file()), l.line())).unwrap_or_else(|| "?".into());
         let msg = if let Some(s) = info.payload().downcast_ref::<&str>() {
@@ -1479,58 +1581,45 @@ fn main() {
         };
         LAST_PANIC.with(|p| *p.borrow_mut() = Some((loc, msg)));
     }));
-    let mut symbols = Symbols::new();
-    let env = Env::new(&mut symbols);
-    let mut out = Out {
+}
+
+fn new_out(args: &Args) -> Out {
+    Out {
         model_in: args.file("model_in.txt"),
         impl_out: args.file("impl_out.txt"),
         cases: args.file("cases.txt"),
         direct: args.file("direct.jsonl"),
+        notes: args.file("notes.jsonl"),
         panics: BTreeMap::new(),
         hist: Hist::default(),
         totals: Totals::default(),
         distinct: HashSet::new(),
         nontrivial: 0,
+        vid_prefix: String::new(),
         next_vid: 0,
         direct_reported: 0,
-    };
-
-    if let Some(path) = &args.replay {
-        let v: serde_json::Value = serde_json::from_str(&std::fs::read_to_string(path).expect("replay file")).expect("json");
-        let src = v["case"]["program"].as_str().expect("case.program").to_string();
-        let offset = v["case"]["offset"].as_u64().map(|o| o as u32);
-        println!("program:\n{}\noffset: {:?}", src, offset);
-        run_variant(&mut out, &mut symbols, &env, &src, 0, "replay", offset, true);
-        out.model_in.flush().unwrap();
-        out.impl_out.flush().unwrap();
-        for ((func, loc), p) in &out.panics {
-            println!("PANIC in {} at {} (offset {}): {}", func, loc, p.offset, p.message);
-        }
-        println!("impl_out:\n{}", std::fs::read_to_string(args.out.join("impl_out.txt")).unwrap_or_default());
-        println!("model_in:\n{}", std::fs::read_to_string(args.out.join("model_in.txt")).unwrap_or_default());
-        return;
     }
+}
 
+/// corpus + generated programs; deterministic in (seed, tier, extra), so every child process
+/// rebuilds the same list and works on its own slice of it
+fn build_programs(args: &Args) -> (Vec<(String, String)>, Hist) {
     let mut rng = Rng::new(args.seed);
-    let nprog: u64 = args.extra.get("programs").and_then(|s| s.parse().ok()).unwrap_or(if args.thorough() { 1200 } else { 110 });
-    let mut pid = 0u64;
+    let nprog: u64 = args.extra.get("programs").and_then(|s| s.parse().ok()).unwrap_or(if args.thorough() { 800 } else { 110 });
     let mut programs: Vec<(String, String)> = corpus().into_iter().map(|s| ("corpus".to_string(), s)).collect();
     let mut feat = Hist::default();
-    let maxlen: usize = args.extra.get("maxlen").and_then(|s| s.parse().ok()).unwrap_or(if args.thorough() { 200 } else { 150 });
+    let maxlen: usize = args.extra.get("maxlen").and_then(|s| s.parse().ok()).unwrap_or(if args.thorough() { 180 } else { 150 });
     for _ in 0..nprog {
         // bounded size: the number of variants x offsets grows quadratically with the length
         let mut tries = 0;
         loop {
             let mut f = Hist::default();
             let text = {
-                let mut g = Gen { rng: &mut rng, has_t: false, fresh: 0, feat: &mut f };
+                let mut g = Gen { rng: &mut rng, has_t: false, line_ok: false, fresh: 0, feat: &mut f };
                 g.program()
             };
             tries += 1;
             if text.len() <= maxlen || tries > 200 {
-                if tries > 200 {
-                    eprintln!("generator: gave up bounding the size ({} bytes)", text.len());
-                }
                 for (k, v) in &f.0 {
                     feat.addn(k, *v);
                 }
@@ -1539,30 +1628,15 @@ fn main() {
             }
         }
     }
-    for (origin, text) in &programs {
-        out.hist.add(&format!("origin:{}", origin));
-        for (vname, vtext) in variants_of(text) {
-            let t0 = std::time::Instant::now();
-            run_variant(&mut out, &mut symbols, &env, &vtext, pid, &vname, None, false);
-            let dt = t0.elapsed().as_millis();
-            if dt > 500 {
-                out.hist.add("slow-variant(>500ms)");
-                eprintln!("slow variant ({} ms) prog={} {} len={}: {}", dt, pid, vname, vtext.len(), esc(&vtext));
-            }
-        }
-        pid += 1;
-        if pid % 200 == 0 {
-            // the interner only grows: renew it
-            symbols = Symbols::new();
-        }
-    }
-    for (k, v) in &feat.0 {
-        out.hist.addn(&format!("feature:{}", k), *v);
-    }
+    (programs, feat)
+}
+
+fn finish_out(args: &Args, mut out: Out, programs: u64) {
     out.model_in.flush().unwrap();
     out.impl_out.flush().unwrap();
     out.cases.flush().unwrap();
     out.direct.flush().unwrap();
+    out.notes.flush().unwrap();
     let mut pf = args.file("panics.jsonl");
     for ((func, loc), p) in &out.panics {
         writeln!(
@@ -1581,7 +1655,7 @@ fn main() {
             "evaluations": t.queries,
             "positions": t.positions,
             "variants": t.variants,
-            "programs": pid,
+            "programs": programs,
             "no_ast": t.no_ast,
             "front_end_panics": t.pipeline_panics,
             "opaque_nodes": t.opaque_nodes,
@@ -1589,8 +1663,302 @@ fn main() {
             "ident_positions": t.ident_positions,
             "ident_not_reported": t.ident_not_reported,
             "distinct_nontrivial": out.nontrivial,
-            "rule": "one evaluation = one editor query at one byte offset of one program variant; distinct non-trivial = program variants with an exported span tree of at least 4 nodes, distinct by source text",
             "hist": out.hist.to_json(),
         }),
     );
+}
+
+/// `child lo=<a> hi=<b> chunk=<i> [skip=<hash,hash>]`: programs a..b of the list, outputs into --out
+fn child_main(args: &Args) {
+    install_panic_hook();
+    let file = std::fs::File::create(args.out.join("progress.txt")).expect("progress file");
+    *PROGRESS.lock().unwrap() = Some(Progress { file, fine: false });
+    let (programs, feat) = build_programs(args);
+    let lo: usize = args.extra.get("lo").and_then(|s| s.parse().ok()).unwrap_or(0);
+    let hi: usize = args.extra.get("hi").and_then(|s| s.parse().ok()).unwrap_or(programs.len()).min(programs.len());
+    let skip: HashSet<String> = args.extra.get("skip").map(|s| s.split(',').map(|x| x.to_string()).collect()).unwrap_or_default();
+    let mut symbols = Symbols::new();
+    let env = Env::new(&mut symbols);
+    let mut out = new_out(args);
+    out.vid_prefix = format!("{}.", args.extra.get("chunk").cloned().unwrap_or_else(|| "0".into()));
+    for (pid, (origin, text)) in programs.iter().enumerate().take(hi).skip(lo) {
+        out.hist.add(&format!("origin:{}", origin));
+        for (vname, vtext) in variants_of(text) {
+            if skip.contains(&format!("{:016x}", fnv(vtext.as_bytes()))) {
+                out.hist.add("variant-skipped-after-abort");
+                continue;
+            }
+            let t0 = std::time::Instant::now();
+            run_variant(&mut out, &mut symbols, &env, &vtext, pid as u64, &vname, None, false);
+            if t0.elapsed().as_millis() > 500 {
+                out.hist.add("slow-variant(>500ms)");
+            }
+        }
+    }
+    if lo == 0 {
+        for (k, v) in &feat.0 {
+            out.hist.addn(&format!("feature:{}", k), *v);
+        }
+    }
+    finish_out(args, out, (hi - lo) as u64);
+}
+
+/// `probe file=<json>`: one variant with a progress record before every single query
+fn probe_main(args: &Args) {
+    install_panic_hook();
+    let file = std::fs::File::create(args.out.join("progress.txt")).expect("progress file");
+    *PROGRESS.lock().unwrap() = Some(Progress { file, fine: true });
+    let v: serde_json::Value = serde_json::from_str(&std::fs::read_to_string(args.extra.get("file").expect("file=")).expect("probe file")).expect("json");
+    let src = v["program"].as_str().expect("program").to_string();
+    let variant = v["variant"].as_str().unwrap_or("probe").to_string();
+    let mut symbols = Symbols::new();
+    let env = Env::new(&mut symbols);
+    let mut out = new_out(args);
+    run_variant(&mut out, &mut symbols, &env, &src, 0, &variant, None, false);
+    progress("done", "-", 0, &variant, &src);
+}
+
+fn run_with_timeout(cmd: &mut std::process::Command, secs: u64) -> (Option<std::process::ExitStatus>, String) {
+    use std::process::Stdio;
+    let mut child = cmd.stdout(Stdio::null()).stderr(Stdio::piped()).spawn().expect("spawn child");
+    let deadline = std::time::Instant::now() + std::time::Duration::from_secs(secs);
+    let status = loop {
+        match child.try_wait() {
+            Ok(Some(st)) => break Some(st),
+            Ok(None) => {
+                if std::time::Instant::now() > deadline {
+                    let _ = child.kill();
+                    let _ = child.wait();
+                    break None;
+                }
+                std::thread::sleep(std::time::Duration::from_millis(20));
+            }
+            Err(_) => break None,
+        }
+    };
+    let mut err = String::new();
+    if let Some(mut e) = child.stderr.take() {
+        use std::io::Read;
+        let mut buf = Vec::new();
+        let _ = e.read_to_end(&mut buf);
+        err = String::from_utf8_lossy(&buf).to_string();
+    }
+    let tail: String = err.chars().rev().take(600).collect::<String>().chars().rev().collect();
+    (status, tail)
+}
+
+fn common_child_args(args: &Args) -> Vec<String> {
+    let mut v = vec!["--tier".to_string(), args.tier.clone(), "--seed".to_string(), args.seed.to_string()];
+    for (k, val) in &args.extra {
+        if !["lo", "hi", "chunk", "skip", "file", "jobs", "chunk_size"].contains(&k.as_str()) {
+            v.push(format!("{}={}", k, val));
+        }
+    }
+    v
+}
+
+/// One chunk: run the child; when it dies (abort, signal, timeout) find out where with a probe
+/// run, record it, skip that variant and start the chunk again.
+fn run_chunk(args: &Args, exe: &std::path::Path, chunk: usize, lo: usize, hi: usize, timeout: u64) -> Vec<serde_json::Value> {
+    let dir = args.out.join(format!("chunk-{}", chunk));
+    let mut aborts = vec![];
+    let mut skip: Vec<String> = vec![];
+    for _attempt in 0..25 {
+        let _ = std::fs::remove_dir_all(&dir);
+        std::fs::create_dir_all(&dir).unwrap();
+        let mut cmd = std::process::Command::new(exe);
+        cmd.arg("child").arg("--out").arg(&dir).args(common_child_args(args)).arg(format!("lo={}", lo)).arg(format!("hi={}", hi)).arg(format!("chunk={}", chunk));
+        if !skip.is_empty() {
+            cmd.arg(format!("skip={}", skip.join(",")));
+        }
+        let (status, err_tail) = run_with_timeout(&mut cmd, timeout);
+        if status.map_or(false, |s| s.success()) {
+            return aborts;
+        }
+        let how = match status {
+            None => "timeout (hang)".to_string(),
+            Some(s) => format!("{}", s),
+        };
+        let prog: serde_json::Value = std::fs::read_to_string(dir.join("progress.txt")).ok().and_then(|t| serde_json::from_str(&t).ok()).unwrap_or(serde_json::json!({}));
+        let hash = prog["hash"].as_str().unwrap_or("?").to_string();
+        // pin the query and the offset down
+        let pdir = args.out.join(format!("probe-{}", chunk));
+        let _ = std::fs::remove_dir_all(&pdir);
+        std::fs::create_dir_all(&pdir).unwrap();
+        std::fs::write(pdir.join("probe.json"), prog.to_string()).unwrap();
+        let mut pc = std::process::Command::new(exe);
+        pc.arg("probe").arg("--out").arg(&pdir).args(common_child_args(args)).arg(format!("file={}", pdir.join("probe.json").display()));
+        let (pstatus, perr) = run_with_timeout(&mut pc, 120);
+        let fine: serde_json::Value = std::fs::read_to_string(pdir.join("progress.txt")).ok().and_then(|t| serde_json::from_str(&t).ok()).unwrap_or(serde_json::json!({}));
+        let reproduced = !pstatus.map_or(false, |s| s.success());
+        aborts.push(serde_json::json!({
+            "how": how, "stderr": err_tail, "program": prog["program"], "variant": prog["variant"], "hash": hash,
+            "phase": if reproduced { fine["phase"].clone() } else { prog["phase"].clone() },
+            "function": if reproduced { fine["function"].clone() } else { prog["function"].clone() },
+            "offset": if reproduced { fine["offset"].clone() } else { prog["offset"].clone() },
+            "reproduced_alone": reproduced, "probe_stderr": perr,
+        }));
+        if hash == "?" {
+            break;
+        }
+        skip.push(hash);
+    }
+    aborts
+}
+
+fn append_file(dst: &mut impl Write, path: &std::path::Path) {
+    if let Ok(mut f) = std::fs::File::open(path) {
+        let _ = std::io::copy(&mut f, dst);
+    }
+}
+
+fn parent_main(args: &Args) {
+    let (programs, _) = build_programs(args);
+    let n = programs.len();
+    let chunk_size: usize = args.extra.get("chunk_size").and_then(|s| s.parse().ok()).unwrap_or(if args.thorough() { 25 } else { 15 });
+    let jobs: usize = args.extra.get("jobs").and_then(|s| s.parse().ok()).unwrap_or(8);
+    let timeout: u64 = if args.thorough() { 1500 } else { 600 };
+    let exe = std::env::current_exe().expect("current_exe");
+    let chunks: Vec<(usize, usize, usize)> = (0..n).step_by(chunk_size).enumerate().map(|(i, lo)| (i, lo, (lo + chunk_size).min(n))).collect();
+    let next = std::sync::atomic::AtomicUsize::new(0);
+    let aborts: std::sync::Mutex<Vec<(usize, Vec<serde_json::Value>)>> = std::sync::Mutex::new(vec![]);
+    std::thread::scope(|sc| {
+        for _ in 0..jobs.min(chunks.len()).max(1) {
+            sc.spawn(|| loop {
+                let i = next.fetch_add(1, std::sync::atomic::Ordering::SeqCst);
+                if i >= chunks.len() {
+                    break;
+                }
+                let (c, lo, hi) = chunks[i];
+                let a = run_chunk(args, &exe, c, lo, hi, timeout);
+                aborts.lock().unwrap().push((c, a));
+            });
+        }
+    });
+    // merge, in chunk order
+    let mut model_in = args.file("model_in.txt");
+    let mut impl_out = args.file("impl_out.txt");
+    let mut cases = args.file("cases.txt");
+    let mut direct = args.file("direct.jsonl");
+    let mut notes = args.file("notes.jsonl");
+    let mut panics: BTreeMap<(String, String), serde_json::Value> = BTreeMap::new();
+    let mut totals: BTreeMap<String, u64> = BTreeMap::new();
+    let mut hist = Hist::default();
+    let mut missing = 0u64;
+    for (c, _, _) in &chunks {
+        let dir = args.out.join(format!("chunk-{}", c));
+        let stats: Option<serde_json::Value> = std::fs::read_to_string(dir.join("stats.json")).ok().and_then(|t| serde_json::from_str(&t).ok());
+        let stats = match stats {
+            Some(s) => s,
+            None => {
+                missing += 1;
+                continue;
+            }
+        };
+        append_file(&mut model_in, &dir.join("model_in.txt"));
+        append_file(&mut impl_out, &dir.join("impl_out.txt"));
+        append_file(&mut cases, &dir.join("cases.txt"));
+        append_file(&mut direct, &dir.join("direct.jsonl"));
+        append_file(&mut notes, &dir.join("notes.jsonl"));
+        if let Some(o) = stats.as_object() {
+            for (k, v) in o {
+                if let Some(x) = v.as_u64() {
+                    *totals.entry(k.clone()).or_insert(0) += x;
+                }
+            }
+            if let Some(h) = o.get("hist").and_then(|h| h.as_object()) {
+                for (k, v) in h {
+                    hist.addn(k, v.as_u64().unwrap_or(0));
+                }
+            }
+        }
+        for line in std::fs::read_to_string(dir.join("panics.jsonl")).unwrap_or_default().lines() {
+            if let Ok(p) = serde_json::from_str::<serde_json::Value>(line) {
+                let key = (p["function"].as_str().unwrap_or("?").to_string(), p["location"].as_str().unwrap_or("?").to_string());
+                match panics.get_mut(&key) {
+                    None => {
+                        panics.insert(key, p);
+                    }
+                    Some(old) => {
+                        let cnt = old["count"].as_u64().unwrap_or(0) + p["count"].as_u64().unwrap_or(0);
+                        if p["program"].as_str().map_or(0, |s| s.len()) < old["program"].as_str().map_or(0, |s| s.len()) {
+                            *old = p;
+                        }
+                        old["count"] = serde_json::json!(cnt);
+                    }
+                }
+            }
+        }
+        let _ = std::fs::remove_dir_all(&dir);
+    }
+    let mut pf = args.file("panics.jsonl");
+    for p in panics.values() {
+        writeln!(pf, "{}", p).unwrap();
+    }
+    let mut af = args.file("aborts.jsonl");
+    let mut all_aborts = aborts.into_inner().unwrap();
+    all_aborts.sort_by_key(|a| a.0);
+    let mut n_aborts = 0u64;
+    for (_, list) in &all_aborts {
+        for a in list {
+            n_aborts += 1;
+            writeln!(af, "{}", a).unwrap();
+        }
+    }
+    for w in [&mut model_in, &mut impl_out, &mut cases, &mut direct, &mut notes, &mut pf, &mut af] {
+        w.flush().unwrap();
+    }
+    let mut stats = serde_json::Map::new();
+    for (k, v) in &totals {
+        stats.insert(k.clone(), serde_json::json!(v));
+    }
+    stats.insert("programs".into(), serde_json::json!(n));
+    stats.insert("chunks".into(), serde_json::json!(chunks.len()));
+    stats.insert("chunks_without_result".into(), serde_json::json!(missing));
+    stats.insert("aborts".into(), serde_json::json!(n_aborts));
+    stats.insert(
+        "rule".into(),
+        serde_json::json!("one evaluation = one editor query at one byte offset of one program variant; distinct non-trivial = program variants with an exported span tree of at least 4 nodes, distinct by source text (per chunk of programs)"),
+    );
+    stats.insert("hist".into(), hist.to_json());
+    gvh::out::write_json(&args.out.join("stats.json"), &serde_json::Value::Object(stats));
+}
+
+fn main() {
+    let args = Args::parse();
+    if args.rest.iter().any(|a| a == "child") {
+        return child_main(&args);
+    }
+    if args.rest.iter().any(|a| a == "probe") {
+        return probe_main(&args);
+    }
+    if let Some(path) = &args.replay {
+        install_panic_hook();
+        let mut symbols = Symbols::new();
+        let env = Env::new(&mut symbols);
+        let mut out = new_out(&args);
+        let v: serde_json::Value = serde_json::from_str(&std::fs::read_to_string(path).expect("replay file")).expect("json");
+        let src = v["case"]["program"].as_str().expect("case.program").to_string();
+        let offset = v["case"]["offset"].as_u64().map(|o| o as u32);
+        println!("program:\n{}\noffset: {:?}", src, offset);
+        {
+            let type_cache = TypeCache::new();
+            let mut module = SymbolModule::new("test".into(), &mut symbols);
+            match gluon_parser::parse_partial_root_expr(&mut module, &type_cache, &src[..]) {
+                Ok(_) => println!("parse: ok"),
+                Err((e, errs)) => println!("parse: errors (ast recovered: {}): {}", e.is_some(), errs),
+            }
+        }
+        run_variant(&mut out, &mut symbols, &env, &src, 0, "replay", offset, true);
+        out.model_in.flush().unwrap();
+        out.impl_out.flush().unwrap();
+        out.cases.flush().unwrap();
+        for ((func, loc), p) in &out.panics {
+            println!("PANIC in {} at {} (offset {}): {}", func, loc, p.offset, p.message);
+        }
+        println!("impl_out:\n{}", std::fs::read_to_string(args.out.join("impl_out.txt")).unwrap_or_default());
+        println!("model_in:\n{}", std::fs::read_to_string(args.out.join("model_in.txt")).unwrap_or_default());
+        return;
+    }
+    parent_main(&args);
 }
